@@ -330,8 +330,8 @@ class Interp:
         # canonical direction for the negative operators: record as not(positive)
         neg = {"NotEq": "Eq", "IsNot": "Is", "NotIn": "In"}
         if op in neg:
-            return ("not", ("cmp", neg[op], a, b))
-        return ("cmp", op, a, b)
+            return self.neg(self.h(("cmp", neg[op], a, b)))
+        return self.h(("cmp", op, a, b))
 
     def boolop(self, kind, vals):
         out = []
@@ -405,6 +405,7 @@ class Interp:
                 for k in [k for k in st.env if k.startswith(p + ".")]:
                     del st.env[k]
             st.effects.append(("store", p or ast.unparse(target), val, target))
+            st.effects.append(("storeattr", self.ev(target.value, st), target.attr, val, target))
         elif isinstance(target, (ast.Tuple, ast.List)):
             for i, t in enumerate(target.elts):
                 if isinstance(val, tuple) and val and val[0] in ("tuple", "list") and len(val[1]) == len(target.elts):
